@@ -466,6 +466,8 @@ class SNum(Sym):
     def _cmp(self, o, f):
         if not _supported(o):
             return NotImplemented
+        if isinstance(o, float) and o in (float('inf'), float('-inf')):
+            return bool(f(0.0, o))  # every real compares with +-inf like 0 does
         a, b = _coerce(self.t, _zt(o))
         return mkb(f(a, b))
 
